@@ -65,6 +65,7 @@ uint64_t vrt_seq(void);
 uint64_t vrt_rand(void);         /* per-thread seeded PRNG */
 void vrt_progress(void);         /* tell the watchdog the driver is alive */
 void vrt_set_hang_seconds(int s);
+void vrt_set_record_progress(int on);   /* 0: only API events and vrt_progress() feed the watchdog */
 void vrt_set_max_seconds(int s);   /* cap on the total run time: dump + exit 71 (0 = none) */
 void vrt_pause(int on);          /* stop/resume recording (perturbation stays) */
 void vrt_set_perturb(int level);
